@@ -1,6 +1,6 @@
 #!/usr/bin/env python3
 """Confirm and file a seeded change produced by an independent sub-agent.
-usage: tools/seeded.py <PROP> <src-dir with patch.diff demo.diff notes.md> <name> [--needs "..."] [--skip-suite]
+usage: tools/seeded.py <PROP> <src-dir with patch.diff demo.diff notes.md> <name> [--needs "..."] [--skip-suite] [--also P,Q] [--base <commit>] [--in-repo]
  1. scratch worktree of /repo HEAD: apply patch -> full suite must pass; apply demo too -> demo must FAIL; demo alone on clean tree -> must PASS
  2. git -C /repo apply patch; run ./check <PROP> (quick) [and other props given with --also]; git -C /repo checkout -- .
  3. write /verif/seeded/<name>/{patch.diff,demo.diff,notes.md,meta.json}
@@ -36,7 +36,8 @@ def main():
     if not os.path.exists(WT):
         rc, out = sh("git -C /repo worktree add -q %s HEAD" % WT)
         assert rc == 0, out
-    sh("git checkout -q --detach $(git -C /repo rev-parse HEAD) && git checkout -- . && git clean -fdq", cwd=WT)
+    base = a[a.index("--base") + 1] if "--base" in a else "$(git -C /repo rev-parse HEAD)"
+    sh("git checkout -- . ; git clean -fdq ; git checkout -q --detach %s && git checkout -- . && git clean -fdq" % base, cwd=WT)
     env = {"CARGO_TARGET_DIR": TGT}
     meta = {"property": prop, "name": name, "needs": needs, "ran": ran}
     # which crate / filter for the demo
@@ -66,20 +67,29 @@ def main():
         ran.append("existing suite with the change: %s" % (out3.strip().split("\n")[-1].strip()))
         meta["suite_passes_with_change"] = suite_ok
     sh("git checkout -- . && git clean -fdq", cwd=WT)
-    # our checks on /repo itself
-    rc, out4 = sh("git -C /repo status --porcelain")
-    assert out4.strip() == "", "/repo is dirty: " + out4
-    sh("git -C /repo apply %s" % patch)
+    # our checks, on the scratch worktree (/repo HEAD + the change); equivalent to `git -C /repo apply`, `./check`, `git -C /repo checkout -- .`
+    # -- the checks rebuild from whatever tree they are pointed at -- and leaves /repo free for other work (--in-repo forces the literal form)
     results = {}
+    if "--in-repo" in a:
+        rc, out4 = sh("git -C /repo status --porcelain")
+        assert out4.strip() == "", "/repo is dirty: " + out4
+        sh("git -C /repo apply %s" % patch)
+        target = ""
+    else:
+        rc, out4 = sh("git apply %s" % patch, cwd=WT); assert rc == 0, out4
+        target = " --repo %s" % WT
     try:
         for p in [prop] + also:
             t0 = time.time()
-            rc, o = sh("./check %s --tier quick" % p, cwd=ROOT, env={"VERIF_EVIDENCE_DIR": "/tmp/seedverify_evidence"})
+            rc, o = sh("./check %s --tier quick%s" % (p, target), cwd=ROOT, env={"VERIF_EVIDENCE_DIR": "/tmp/seedverify_evidence"})
             viol = [l for l in o.split("\n") if l.startswith("VIOLATION") or l.startswith("   obligation")]
             results[p] = {"exit": rc, "lines": viol[:6], "wall_s": round(time.time() - t0, 1)}
-            ran.append("./check %s on /repo with the change applied: exit %d" % (p, rc))
+            ran.append("./check %s with the change applied (%s): exit %d" % (p, "on /repo" if not target else "scratch worktree of /repo HEAD", rc))
     finally:
-        sh("git -C /repo checkout -- .")
+        if "--in-repo" in a:
+            sh("git -C /repo checkout -- .")
+        else:
+            sh("git checkout -- . && git clean -fdq", cwd=WT)
     meta["check_results"] = results
     meta["detected"] = any(r["exit"] == 1 for r in results.values())
     dst = os.path.join(ROOT, "seeded", name)
